@@ -3,7 +3,8 @@
  * while shim_io.c (linked with -Wl,--wrap=...) splits, interrupts and fails the system calls.
  *
  * stdin (one token line each):
- *   C <seed> <mode> <eintr_pm> <fail_at> <zero_at> <nosparse> <pipechunk>   begin case
+ *   C <seed> <mode> <eintr_pm> <fail_at> <zero_at> <nosparse> <pipechunk> [<ea0> <ea1> <ea2>]   begin case
+ *     (ea*: call indices answered with -1/EAGAIN, -1 = unused; logged as "=A")
  *   D <hex|->      content of the istream's source            F <hex|->   initial content of the file object
  *   O <op> args    (read n | skip n | splice n | line flags | get want | adv n | record size |
  *                   put hex | hole n | flush | readat off size | writeat off hex | trunc len | fsize)
@@ -84,6 +85,8 @@ static void print_log(void)
 			printf("=0");
 		else if (r[i].err == EINTR)
 			printf("=I");
+		else if (r[i].err == EAGAIN)
+			printf("=A");
 		else
 			printf("=F");
 	}
@@ -547,7 +550,7 @@ static void probe(void)
 	out = sqfs_drop(out);
 	full.active = 0;
 	shim_configure(&full);
-	printf("P bufsz=%zu zchunk=%zu\n", bufsz, zchunk);
+	printf("P bufsz=%zu zchunk=%zu eintr=%d eio=%d eagain=%d\n", bufsz, zchunk, EINTR, EIO, EAGAIN);
 }
 
 int main(int argc, char **argv)
@@ -576,10 +579,10 @@ int main(int argc, char **argv)
 		case 'C': {
 			unsigned long long seed = 0;
 			int mode = 0, pm = 0;
-			long fail_at = -1, zero_at = -1;
+			long fail_at = -1, zero_at = -1, ea[3] = { -1, -1, -1 };
 
-			sscanf(line + 1, "%llu %d %d %ld %ld %d %d", &seed, &mode, &pm, &fail_at,
-			       &zero_at, &nosparse, &pipechunk);
+			sscanf(line + 1, "%llu %d %d %ld %ld %d %d %ld %ld %ld", &seed, &mode, &pm, &fail_at,
+			       &zero_at, &nosparse, &pipechunk, &ea[0], &ea[1], &ea[2]);
 			memset(&plan, 0, sizeof(plan));
 			plan.seed = seed;
 			plan.mode = mode;
@@ -587,6 +590,10 @@ int main(int argc, char **argv)
 			plan.max_burst = 3;
 			plan.fail_at = fail_at;
 			plan.zero_at = zero_at;
+			plan.eagain_at[0] = ea[0];
+			plan.eagain_at[1] = ea[1];
+			plan.eagain_at[2] = ea[2];
+			plan.eagain_on = (ea[0] >= 0 || ea[1] >= 0 || ea[2] >= 0);
 			plan.active = 1;
 			stopped = 0;
 			src_data = calloc(1, 1);
